@@ -54,6 +54,11 @@ class {P}Coll(ASTNode):
     def __contains__(self, x):
         return any(x is i for i in self.items)
 
+class {P}HDict(dict):
+    def __hash__(self):
+        return id(self)
+
+
 class {P}NAbcBase(ASTNode, ABC):
     # an abstract node base (abc.ABC gives it another metaclass)
     pass
@@ -93,6 +98,8 @@ def render(a, P: str, quote_fwd: bool = False) -> str:
         return "Literal[" + ", ".join(repr(v) for v in a[1]) + "]"
     if k in ("barelist", "baredict", "bareset"):
         return k[4:]  # the unparametrised class itself: list / dict / set
+    if k == "hashdict":
+        return f"{P}HDict"  # a user's dict subclass that defines a hash of its own: a mutable collection all the same
     if k == "nt":
         return f"{P}{a[1]}"
     if k == "node":
@@ -259,7 +266,7 @@ def classify(a) -> str:
     """CHILD | PROP | REJECT for an annotation AST (the statement of C11)."""
     n = norm(unwrap_nt(a))
     nodes = [x for x in _walk_n(n) if x[0] == "node"]
-    mutable = [x for x in _walk_n(n) if x[0] in ("list", "dict", "set", "barelist", "baredict", "bareset")]
+    mutable = [x for x in _walk_n(n) if x[0] in ("list", "dict", "set", "barelist", "baredict", "bareset", "hashdict")]
 
     def node_union(x, allow_none: bool) -> bool:
         if x[0] == "node":
@@ -289,7 +296,7 @@ def classify(a) -> str:
 # ---------------------------------------------------------------------------
 ATOMS = [
     ("int",), ("str",), ("bool",), ("float",), ("any",), ("none",), ("enum",), ("lit", ("a", 1, "alpha-beta", 65536)),  # members that CPython caches as singletons and members it does not
-    ("nt", "NTint"), ("nt", "NTnode"), ("nt", "NTnt"), ("nt", "NTseq"), ("nt", "NTopt"), ("nt", "NTints"), ("node", "N0"), ("node", "N1"), ("node", "Fz"), ("node", "Coll"), ("node", "NAbc"), ("fwd", "L0"), ("barelist",), ("baredict",), ("bareset",),
+    ("nt", "NTint"), ("nt", "NTnode"), ("nt", "NTnt"), ("nt", "NTseq"), ("nt", "NTopt"), ("nt", "NTints"), ("node", "N0"), ("node", "N1"), ("node", "Fz"), ("node", "Coll"), ("node", "NAbc"), ("fwd", "L0"), ("barelist",), ("baredict",), ("bareset",), ("hashdict",),
 ]
 R0 = [("int",), ("str",), ("none",), ("node", "N0"), ("node", "N1"), ("nt", "NTnode"), ("fwd", "L0")]
 UNARY = [("opt", "typing"), ("opt", "pipe"), ("tvar",), ("tfix1",), ("fset",), ("seq",), ("list",), ("set",)]
@@ -333,7 +340,7 @@ def enum_d2() -> list:
     out = []
     for c in UNARY:
         for d in d1:
-            if d[0] in ("int", "str", "bool", "float", "any", "none", "enum", "lit", "nt", "node", "fwd", "barelist", "baredict", "bareset"):
+            if d[0] in ("int", "str", "bool", "float", "any", "none", "enum", "lit", "nt", "node", "fwd", "barelist", "baredict", "bareset", "hashdict"):
                 continue  # that is depth 1
             out.append(mk_unary(c, d))
     for c in BINARY:
